@@ -27,7 +27,7 @@ CHECKS.update({
    note=CODEC_NOTE + " Typed helpers are exercised for a fixed representative set of 29 message types per expansion."),
  "C03": dict(engine="codec_harness", category="fault_enumeration", design="DESIGN.md §2 C03",
    technique="structured fault injection from the model's trace + random frames (proptest), each case in an isolated worker process under RLIMIT_AS and a watchdog",
-   text="Every message's valid encodings are corrupted field by field (truncations, count/length/size extremes, out-of-range enum/bool/flag/mask/date patterns, string damage, inconsistent headers, zlib damage and bombs) and fed, with random bodies and raw byte strings, to the public readers inside worker processes limited to 1 GiB beyond their idle footprint; any panic, abort, allocation failure or stack overflow is a violation, a watchdog hit is inconclusive.",
+   text="Every message's valid encodings are corrupted field by field (truncations, count/length/size extremes, out-of-range enum/bool/flag/mask/date patterns, string damage, inconsistent headers, zlib damage and bombs) and fed, with random bodies, an exhaustive per-endpoint header sweep (every small / boundary size in the 2-byte and 3-byte form x defined / undefined opcode x tails x truncations) and raw byte strings, to the public readers inside worker processes limited to 1 GiB beyond their idle footprint; any panic, abort, allocation failure or stack overflow is a violation, a watchdog hit is inconclusive.",
    note=CODEC_NOTE + " Overflow checks are on in the harness build. Hangs shorter than the watchdog and memory growth below the budget are not detected."),
  "C04": dict(engine="codec_harness", category="fault_enumeration", design="DESIGN.md §2 C04",
    technique="enumeration of fault sites from the wowm model (every enum leaf x undeclared values incl. width aliases; every constant-size message x every wrong length; exhaustive opcode space) with a metamorphic oracle",
@@ -75,7 +75,7 @@ CHECKS.update({
    note=GEN_NOTE),
  "C16": dict(engine="gencheck", category="fault_enumeration", design="DESIGN.md §2 C16",
    technique="fault injection: per language rule, injection sites enumerated over the real corpus through the independent model's syntax tree, a seed-chosen stratified subset applied as single textual edits, real generator run on scratch trees; oracle = the rule's exit status and a diagnostic naming the file",
-   text="25 rule variants (every rule of the statement) are injected at sites spread over top level, struct members, if / else-if / else / optional bodies, tag_all files and paste_versions objects (10 sites per variant quick, 200 thorough out of 15-2200 candidates each); each must stop the generator with that rule's exit status; the unmodified tree must exit 0.",
+   text="28 rule variants (every rule of the statement, incl. a type missing for one of several versions and a version clash separated by another definition of the same name) are injected at sites spread over top level, struct members, if / else-if / else / optional bodies, tag_all files and paste_versions objects (10 sites per variant quick, 200 thorough out of 15-2200 candidates each); each must stop the generator with that rule's exit status; the unmodified tree must exit 0.",
    note=GEN_NOTE + " Each edit is constructed to break exactly one rule; sites whose type differs between the versions of a pasted object are skipped."),
 })
 
